@@ -5,6 +5,7 @@ import CmModel.Descent
 import CmModel.Color
 import CmModel.Cert
 import CmModel.CliRun
+import CmModel.Html
 import CmGen.NamedColors
 /-! Line-protocol driver: one operation per input line, one result line per operation. -/
 open Cm Cm.Proto
@@ -328,6 +329,11 @@ def handle (toks : List String) : Option String :=
       -- certified (proved sound over ℝ) verdict `ratio ≥ num/den`
       let c ← rgbOf r g b; let d ← rgbOf r2 g2 b2; let n ← parseInt num; let m ← den.toNat?
       pure (match certVerdict c d (mkRat n m) with | some true => "true" | some false => "false" | none => "none")
+  | ["skel", h] => do
+      -- markup skeleton of an HTML document under the coarse tokenizer model (C19)
+      let s ← if h == "-" then some "" else strOfHex h
+      let sk := Cm.Html.skeleton (Cm.Html.ofString s)
+      pure (hexOfStr (String.ofList (sk.map Char.ofNat)))
   | ["pmod", x, y] => do
       let x ← floatOfHex x; let y ← floatOfHex y; pure (hexOfFloat (Num.pmod x y))
   | ["round", x] => do let x ← floatOfHex x; pure (toString (Num.roundHE x))
